@@ -18,7 +18,10 @@ Decided (comparison facts from dominating branch edges, operands identified by p
                     validate_one on the same parsed price, under is_cleared() && primary.is_empty(); no other writer
                     of the price map exists; set_prices callers are tabled.
  * provider       : parse_from_feed_account returns Ok only with expected_provider == provider; the custom feed checks
-                    feed_id == feed_config.feed(); Switchboard requires feed_id == account.key(); Pyth receives feed_id.
+                    feed_id == feed_config.feed(); Switchboard requires feed_id == account.key(); Pyth receives feed_id;
+                    the custom feed's parts are oracle_ts = price.ts() (observation time, not last_published_at),
+                    oracle_slot = last_published_at_slot, price/ref_price converted from the stored report, and a
+                    report older than the heartbeat reaches no Ok exit.
  * cleared        : in `Oracle::with_prices_opts` every path from the return of set_prices_from_remaining_accounts to
                     the function's return passes `clear_all_prices` (both arms, after the callback); nothing mutates
                     the oracle before; clear_all_prices clears the map and sets the Cleared flag.
@@ -314,7 +317,7 @@ def _provider(ctx, prog):
     want_parts = {"oracle_ts": "PriceFeedPrice::ts(self.price)", "oracle_slot": "PriceFeed::last_published_at_slot(self)",
                   "price": "PriceFeed::try_to_price(self, token_config)?", "ref_price": "Option::Some{0: PriceFeed::try_to_ref_price(self, token_config)?}"}
     got_parts = {k: parts.get(k) for k in want_parts}
-    hb = H.bool_switches(cg, r"^\(\(clock\.unix_timestamp Sub PriceFeedPrice::ts\(self\.price\)\) Gt .*TokenConfig::heartbeat_duration\(token_config\).*\)$")
+    hb = H.bool_switches(cg, r"^\(\(?clock\.unix_timestamp Sub[A-Za-z]* PriceFeedPrice::ts\(self\.price\)\)?(\.0)? Gt .*TokenConfig::heartbeat_duration\(token_config\).*\)$")
     oks_cg = sorted(cg.ok_exit_blocks())
     hb_ok = len(hb) == 1 and not any(b in cg.reachable_from(hb[0]["true"]) for b in oks_cg)
     ctx.ob("provider:custom-feed-parts", got_parts == want_parts and hb_ok,
